@@ -339,6 +339,10 @@ type controller struct {
 
 var minorGate = map[string]bool{"setblocked": true, "checklookup": true, "register": true}
 
+var compilerGate = map[string]bool{"mainwait": true, "return": true, "exit": true, "acquire": true, "reacquire": true, "find": true,
+	"loop": true, "loopdp": true, "checkread": true, "checkdep": true, "release": true, "finrelease": true, "waitdep": true,
+	"waitdp": true, "unblock": true, "link": true}
+
 func newController() *controller {
 	return &controller{parked: map[string]*arrival{}, exited: map[string]bool{}, created: map[string]bool{}, wake: make(chan struct{}, 1)}
 }
@@ -351,12 +355,12 @@ func (c *controller) signal() {
 }
 
 func (c *controller) gate(name string, kv ...any) {
+	if minorGate[name] || !compilerGate[name] {
+		return // gates of other hooked packages (linker, intern) are not steps of CompileExec
+	}
 	who := "main"
 	if name != "mainwait" && name != "return" {
 		who = id(kv[0].(string))
-	}
-	if minorGate[name] {
-		return
 	}
 	c.mu.Lock()
 	if name == "exit" {
